@@ -2,6 +2,7 @@ import Refine.Model.DistIds
 import Refine.Lemmas.NodeIds
 import Refine.Lemmas.Dist
 import Refine.Lemmas.DistSync
+import Refine.Props.C06
 import Mathlib.Data.List.Nodup
 
 /-!
@@ -713,5 +714,317 @@ theorem removeWithoutGlobal_core {old : Int} {w : World NodeIds} (h : WorldInvAt
     exact othersU hI hr x hlt' hx q hq
   · intro x hlt' hx q _
     exact othersL hI hr x hlt' ((hK x).1 hx).2 q
+
+/-! ## one event of a history (local ops) -/
+
+theorem liveOf_set_ne {old : Int} {w : World NodeIds} {r q : Nat} (s' : NodeIds) (hq : q ≠ r) :
+    (absWorld old (w.set r s')).liveOf q = (absWorld old w).liveOf q := by
+  cases hw : w[q]? with
+  | none => rw [liveOf_abs_none hw, liveOf_abs_none (by rw [getElem?_set_ne' s' hq]; exact hw)]
+  | some t => rw [liveOf_abs_some hw, liveOf_abs_some (by rw [getElem?_set_ne' s' hq]; exact hw)]
+
+theorem liveElsewhere_iff (old : Int) (w : World NodeIds) (r : Nat) (g : Int) :
+    liveElsewhere w r g = true ↔ ∃ q, q ≠ r ∧ g ∈ (absWorld old w).liveOf q := by
+  unfold liveElsewhere
+  rw [List.any_eq_true]
+  constructor
+  · rintro ⟨q, _, hp⟩
+    simp only [Bool.and_eq_true, decide_eq_true_eq] at hp
+    obtain ⟨hne, hm⟩ := hp
+    cases hw : w[q]? with
+    | none => rw [hw] at hm; simp at hm
+    | some t =>
+      rw [hw] at hm
+      exact ⟨q, hne, by rw [liveOf_abs_some hw]; simpa using hm⟩
+  · rintro ⟨q, hne, hm⟩
+    cases hw : w[q]? with
+    | none => rw [liveOf_abs_none hw] at hm; simp at hm
+    | some t =>
+      rw [liveOf_abs_some hw] at hm
+      have hq : q < w.length := (List.getElem?_eq_some_iff.1 hw).1
+      refine ⟨q, List.mem_range.2 hq, ?_⟩
+      simp [hne, hw, hm]
+
+/-- every enabled local op on any rank preserves the invariant (with the same `old_n_global`) -/
+theorem op_step {old : Int} {w : World NodeIds} (h : WorldInvAt old w) (r : Nat) (o : LocalOp)
+    (hen : enabled w (.op r o) = true) : WorldInvAt old (stepWorld w (.op r o)) := by
+  unfold enabled at hen
+  cases hr : w[r]? with
+  | none => simp [hr] at hen
+  | some s =>
+    simp only [hr] at hen
+    simp only [stepWorld, hr]
+    obtain ⟨ho, hn, hN⟩ := h.1 s (getElem?_mem' hr)
+    cases o with
+    | addFresh =>
+      obtain ⟨h1, _, h3, _⟩ := addFresh_core h hr
+      simp only [stepRank, h1, ne_eq, not_true_eq_false, if_false]
+      exact h3
+    | remove node =>
+      simp only [Bool.and_eq_true, Bool.or_eq_true, decide_eq_true_eq, Bool.not_eq_true'] at hen
+      obtain ⟨hv, hg⟩ := hen
+      rw [globalOf_valid hv, ho] at hg
+      apply remove_core h hr hv
+      intro hlt q hq hm
+      rcases hg with hg | hg
+      · omega
+      · have := (liveElsewhere_iff old w r _).2 ⟨q, hq, hm⟩
+        rw [this] at hg
+        cases hg
+    | removeWithoutGlobal node =>
+      simp only [Bool.and_eq_true, decide_eq_true_eq] at hen
+      obtain ⟨⟨hv, hlt⟩, hle⟩ := hen
+      rw [globalOf_valid hv] at hlt hle
+      rw [ho] at hlt
+      exact removeWithoutGlobal_core h hr hv hlt ((liveElsewhere_iff old w r _).1 hle)
+    | trial =>
+      obtain ⟨h1, h2, h3, h4, h5, h6⟩ := addFresh_core h hr
+      simp only [stepRank, h1, h2, ne_eq, not_true_eq_false, if_false]
+      have hrl : r < w.length := (List.getElem?_eq_some_iff.1 hr).1
+      have hr2 := getElem?_set_self' (w := w) (s.nextGlobal.2.2.add s.nextGlobal.2.1).2.2 hrl
+      have := remove_core h3 hr2 h4 (by
+        rw [Int.toNat_natCast, h5]
+        intro hlt q hq
+        rw [liveOf_set_ne _ hq]
+        exact h6 hlt q hq)
+      rw [List.set_set] at this
+      exact this
+
+/-! ## `ref_node_synchronize_globals` re-establishes the invariant -/
+
+theorem worldInvAt_syncInv {old : Int} {w : World NodeIds} (h : WorldInvAt old w) : SyncInv old w :=
+  ⟨fun s hs => (h.1 s hs).1, fun s hs => by have := h.1 s hs; omega,
+   fun s hs => (h.1 s hs).2.2.srt.sorted.imp fun hab => Int.le_of_lt hab, h.2.toIdInv⟩
+
+theorem writeBack_length (es : List (Int × Nat)) : ∀ g : List Int, (writeBack g es).length = g.length := by
+  induction es with
+  | nil => intro g; rfl
+  | cons e es ih =>
+    intro g
+    show (writeBack (g.set e.2 e.1) es).length = _
+    rw [ih]; simp
+
+theorem slots_nodup {s : NodeIds} (h : NodeInv s) : (s.sorted.map (·.2)).Nodup := by
+  have hk : (s.sorted.map (·.1)).Nodup := keys_nodup h
+  have hs : s.sorted.Nodup := List.Nodup.of_map _ hk
+  apply hs.map_on
+  intro p hp p' hp' he
+  obtain ⟨h1, _⟩ := h.srt.sound p hp
+  obtain ⟨h1', _⟩ := h.srt.sound p' hp'
+  refine Prod.ext ?_ he
+  rw [← h1, ← h1', he]
+
+theorem isChain_of_agree {g g' : List Int} {b : Int} {l : List Nat} (h : IsChain g b l)
+    (hlen : g'.length = g.length) (hag : ∀ i, i ∈ l → g'.getD i (-1) = g.getD i (-1)) : IsChain g' b l := by
+  induction h with
+  | nil => exact .nil
+  | @cons i l hi hn _ ih =>
+    have e := hag i (by simp)
+    have := ih (fun j hj => hag j (by simp [hj]))
+    rw [← e] at this
+    exact .cons (by omega) (by rw [e]; exact hn) this
+
+theorem countP_of_sign : ∀ (g g' : List Int), g'.length = g.length →
+    (∀ i, i < g.length → (0 ≤ g'.getD i (-1) ↔ 0 ≤ g.getD i (-1))) →
+    g'.countP (fun x => decide (0 ≤ x)) = g.countP (fun x => decide (0 ≤ x)) := by
+  intro g
+  induction g with
+  | nil => intro g' hl _; cases g' with
+    | nil => rfl
+    | cons _ _ => simp at hl
+  | cons a t ih =>
+    intro g' hl hs
+    cases g' with
+    | nil => simp at hl
+    | cons a' t' =>
+      have h0 := hs 0 (by simp)
+      simp only [List.getD_cons_zero] at h0
+      have ht := ih t' (by simpa using hl) (fun i hi => by
+        have := hs (i + 1) (by simp; omega)
+        simpa using this)
+      rw [List.countP_cons, List.countP_cons, ht]
+      by_cases ha : 0 ≤ a
+      · simp [ha, h0.2 ha]
+      · have : ¬ 0 ≤ a' := fun h => ha (h0.1 h)
+        simp [ha, this]
+
+theorem map_getD_neg (l : List Int) (f : Int → Int) (v : Nat) (hf : ∀ x, x < 0 → f x = x)
+    (h : l.getD v (-1) < 0) : (l.map f).getD v (-1) = l.getD v (-1) := by
+  simp only [List.getD_eq_getElem?_getD, List.getElem?_map] at h ⊢
+  cases hl : l[v]? with
+  | none => rfl
+  | some x =>
+    rw [hl] at h
+    simp only [Option.getD_some] at h
+    simp [hf x h]
+
+theorem finalRank_keys (A : IdWorld) (r : Nat) (s : NodeIds) :
+    (finalRank A r s).keys = s.keys.map (A.newId r) := by
+  simp [NodeIds.keys, finalRank, List.map_map, Function.comp_def]
+
+/-- the closed-form post-state of one rank satisfies the `ref_node` structure invariant again: the free list is
+    untouched, `sorted_global` is still strictly increasing (`newId` is strictly monotone on the rank's live ids) and
+    `global[sorted_local[i]] = sorted_global[i]` after the write-back -/
+theorem finalRank_NodeInv (A : IdWorld) (r : Nat) (s : NodeIds) (hN : NodeInv s)
+    (hmono : ∀ g g', g ∈ s.keys → g' ∈ s.keys → g < g' → A.newId r g < A.newId r g')
+    (hnn : ∀ g, g ∈ s.keys → 0 ≤ A.newId r g) : NodeInv (finalRank A r s) := by
+  have hlen : (finalRank A r s).global.length = s.global.length := by
+    simp [finalRank, writeBack_length]
+  have hnd : ((s.sorted.map fun (e : Int × Nat) => (A.newId r e.1, e.2)).map (·.2)).Nodup := by
+    rw [List.map_map]; exact slots_nodup hN
+  have hneg : ∀ v, s.global.getD v (-1) < 0 →
+      (finalRank A r s).global.getD v (-1) = s.global.getD v (-1) := by
+    intro v hv
+    show (writeBack _ _).getD v (-1) = _
+    rw [writeBack_getD_not_mem]
+    · exact map_getD_neg _ _ v (fun x hx => by simp; omega) hv
+    · rw [List.map_map]
+      intro hm
+      obtain ⟨p, hp, rfl⟩ := List.mem_map.1 hm
+      have := hN.srt.sound p hp
+      simp only [Function.comp] at hv
+      omega
+  have hpos : ∀ v, 0 ≤ s.global.getD v (-1) →
+      (finalRank A r s).global.getD v (-1) = A.newId r (s.global.getD v (-1)) := by
+    intro v hv
+    show (writeBack _ _).getD v (-1) = _
+    apply writeBack_getD _ _ _ hnd
+    · exact List.mem_map.2 ⟨_, hN.srt.complete v hv, rfl⟩
+    · simpa using lt_length_of_getD_nonneg hv
+  have hkey : ∀ v, 0 ≤ s.global.getD v (-1) → s.global.getD v (-1) ∈ s.keys := fun v hv =>
+    (mem_keys_iff hN).2 ⟨v, hv, rfl⟩
+  have hsign : ∀ v, (0 ≤ (finalRank A r s).global.getD v (-1) ↔ 0 ≤ s.global.getD v (-1)) := by
+    intro v
+    by_cases hv : 0 ≤ s.global.getD v (-1)
+    · rw [hpos v hv]; exact ⟨fun _ => hv, fun _ => hnn _ (hkey v hv)⟩
+    · rw [hneg v (by omega)]
+  obtain ⟨⟨l, hc, hlnd, hmem⟩, hcount⟩ := hN.free
+  refine ⟨⟨⟨l, ?_, hlnd, ?_⟩, ?_⟩, ⟨?_, ?_, ?_, ?_⟩⟩
+  · exact isChain_of_agree hc hlen fun i hi => hneg i (hc.neg_of_mem i hi)
+  · intro i hi
+    have hi' : i < s.max := by simpa [NodeIds.max, hlen] using hi
+    rw [hmem i hi']
+    have := hsign i
+    constructor <;> intro h <;> omega
+  · show s.n = _
+    rw [hcount]
+    exact (countP_of_sign _ _ hlen fun i _ => hsign i).symm
+  · rw [finalRank_keys, List.pairwise_map]
+    have := hN.srt.sorted
+    apply List.Pairwise.imp_of_mem _ this
+    intro a b ha hb hab
+    exact hmono a b ha hb hab
+  · intro p' hp'
+    obtain ⟨p, hp, rfl⟩ := List.mem_map.1 hp'
+    obtain ⟨h1, h2⟩ := hN.srt.sound p hp
+    simp only []
+    rw [hpos p.2 (by rw [h1]; exact h2), h1]
+    exact ⟨rfl, hnn _ (List.mem_map.2 ⟨p, hp, rfl⟩)⟩
+  · intro v hv
+    have hv' := (hsign v).1 hv
+    rw [hpos v hv']
+    exact List.mem_map.2 ⟨_, hN.srt.complete v hv', rfl⟩
+  · show (s.sorted.map _).length = s.n
+    rw [List.length_map]; exact hN.srt.len
+
+theorem final_getElem? (A : IdWorld) (w : World NodeIds) (q : Nat) :
+    (w.mapIdx fun r s => finalRank A r s)[q]? = (w[q]?).map (finalRank A q) := by
+  rw [List.getElem?_mapIdx]
+
+theorem liveOf_final (old N : Int) (w : World NodeIds) (q : Nat) :
+    (absWorld N (w.mapIdx fun r s => finalRank (absWorld old w) r s)).liveOf q
+      = ((absWorld old w).liveOf q).map ((absWorld old w).newId q) := by
+  cases hw : w[q]? with
+  | none =>
+    rw [liveOf_abs_none hw, liveOf_abs_none (by rw [final_getElem?, hw]; rfl)]; rfl
+  | some s =>
+    rw [liveOf_abs_some hw, liveOf_abs_some (s := finalRank (absWorld old w) q s) (by rw [final_getElem?, hw]; rfl),
+      finalRank_keys]
+
+theorem unusedOf_final (old N : Int) (w : World NodeIds) (q : Nat) :
+    (absWorld N (w.mapIdx fun r s => finalRank (absWorld old w) r s)).unusedOf q = [] := by
+  cases hw : w[q]? with
+  | none => rw [unusedOf_abs_none (by rw [final_getElem?, hw]; rfl)]
+  | some s =>
+    rw [unusedOf_abs_some (s := finalRank (absWorld old w) q s) (by rw [final_getElem?, hw]; rfl)]
+    rfl
+
+theorem kOf_final (old : Int) (w : World NodeIds) (q : Nat) :
+    (absWorld (absWorld old w).N (w.mapIdx fun r s => finalRank (absWorld old w) r s)).kOf q = 0 := by
+  cases hw : w[q]? with
+  | none => rw [kOf_abs_none (by rw [final_getElem?, hw]; rfl)]
+  | some s =>
+    rw [kOf_abs_some (s := finalRank (absWorld old w) q s) (by rw [final_getElem?, hw]; rfl)]
+    simp [newNodes, finalRank]
+
+theorem N_nonneg {A : IdWorld} (h : IdInv A) : 0 ≤ A.N := by
+  have hM : 0 ≤ A.M := by
+    have := h.old_nonneg
+    unfold IdWorld.M; omega
+  have := nodup_length_le A.shiftedUnused 0 A.M hM h.unused_nodup h.unused_range
+  unfold IdWorld.N
+  omega
+
+/-- **sync re-establishes the invariant**: after `ref_node_synchronize_globals` the world satisfies the invariant
+    with `old_n_global = N`, no fresh and no unused ids -/
+theorem sync_core {old : Int} {w : World NodeIds} (h : WorldInvAt old w) :
+    WorldInvAt (absWorld old w).N (syncGlobals w) := by
+  have hS := worldInvAt_syncInv h
+  have hB := Refine.Props.C06.newId_bijection (absWorld old w) hS.inv
+  obtain ⟨b1, _, _, _, b5, b6⟩ := hB
+  rw [syncGlobals_eq old w hS]
+  have hN0 := N_nonneg hS.inv
+  constructor
+  · intro s' hs'
+    obtain ⟨i, hi, rfl⟩ := List.mem_iff_getElem.1 hs'
+    have hi' : i < w.length := by simpa using hi
+    simp only [List.getElem_mapIdx]
+    have hwi : w[i]? = some w[i] := List.getElem?_eq_getElem hi'
+    have hl : (absWorld old w).liveOf i = (w[i]).keys := liveOf_abs_some hwi
+    refine ⟨rfl, le_refl _, ?_⟩
+    apply finalRank_NodeInv _ _ _ (h.1 _ (List.getElem_mem hi')).2.2
+    · intro g g' hg hg' hlt
+      exact b1 i g g' (by rw [hl]; exact hg) (by rw [hl]; exact hg') hlt
+    · intro g hg
+      exact (b5 i g (by rw [hl]; exact hg)).1
+  · have hu := unusedOf_final old (absWorld old w).N w
+    have hk := kOf_final old w
+    have hl := liveOf_final old (absWorld old w).N w
+    refine ⟨hN0, by simp [absWorld], by simp [absWorld], ?_, ?_, ?_, ?_, ?_, ?_, ?_, ?_, ?_⟩
+    · intro q
+      cases hw : w[q]? with
+      | none => rw [liveOf_abs_none (by rw [final_getElem?, hw]; rfl)]; exact List.nodup_nil
+      | some s =>
+        rw [hl q, List.Nodup, List.pairwise_map]
+        have hsrt := (h.1 s (getElem?_mem' hw)).2.2.srt.sorted
+        rw [liveOf_abs_some hw]
+        apply List.Pairwise.imp_of_mem _ hsrt
+        intro a b ha hb hab
+        have := b1 q a b (by rw [liveOf_abs_some hw]; exact ha) (by rw [liveOf_abs_some hw]; exact hb) hab
+        omega
+    · intro q; rw [hu q]; exact List.nodup_nil
+    · intro q g _; rw [hu q]; simp
+    · intro q g hg
+      rw [hl q] at hg
+      obtain ⟨g0, hg0, rfl⟩ := List.mem_map.1 hg
+      rw [hk q]
+      have := b5 q g0 hg0
+      refine ⟨this.1, ?_⟩
+      show _ < (absWorld old w).N + ((0 : Nat) : Int)
+      simpa using this.2
+    · intro q g hg; rw [hu q] at hg; simp at hg
+    · intro q g h1 h2
+      rw [hk q] at h2
+      exfalso
+      have : (absWorld (absWorld old w).N (w.mapIdx fun r s => finalRank (absWorld old w) r s)).old
+          = (absWorld old w).N := rfl
+      rw [this] at h1 h2
+      simp at h2
+      omega
+    · intro g h0 hlt
+      obtain ⟨r, g0, hg0, he⟩ := b6 g h0 hlt
+      exact Or.inl ⟨r, by rw [hl r]; exact List.mem_map.2 ⟨g0, hg0, he⟩⟩
+    · intro g p q _ hu'; rw [hu p] at hu'; simp at hu'
+    · intro g p q _ hu'; rw [hu p] at hu'; simp at hu'
 
 end Refine.Lemmas.DistIds
